@@ -2005,6 +2005,8 @@ class Engine:
                 return mk_int(z3.ToInt(r))
             if v.k == "py":
                 return mk_int(int(v.t))
+            if v.k == "opaque":
+                return V("opaque", z3.Const(fresh_name("int_of"), opaque_sort(v.cls)), v.cls)
             raise OutOfReach(f"int({v.k})")
         if nm == "float":
             v = self.ev(n.args[0])
@@ -2039,6 +2041,8 @@ class Engine:
             raise OutOfReach(f"list({v.k})")
         if nm == "isinstance":
             v = self.ev(n.args[0])
+            if isinstance(n.args[1], ast.Tuple):
+                return mk_bool(z3.Or([self.isinstance_model(v, self.dotted(e)).t for e in n.args[1].elts]))
             cls = self.dotted(n.args[1])
             return self.isinstance_model(v, cls)
         if nm == "RawBytes":
@@ -2067,6 +2071,10 @@ class Engine:
         if v.k == "obj":
             sup = self.reg.class_supers(v.cls)
             return mk_bool(cls in sup or cls.split(".")[-1] in sup)
+        if v.k == "opaque":
+            # dynamic type of an unmodelled value: an uninterpreted predicate per class name
+            fn_ = z3.Function("isinstance_" + cls.replace(".", "_"), opaque_sort(v.cls), z3.BoolSort())
+            return mk_bool(fn_(v.t))
         raise OutOfReach(f"isinstance({v.k},{cls})")
 
     def inline_method(self, spec, recv: V, args: List[V], kw: Dict[str, V]) -> V:
